@@ -69,6 +69,23 @@ func genC06v4(o *Out, rng *rand.Rand, tier string) {
 		}
 	}
 	rec(nil)
+	// every hardware type of the registry (and a few outside it) with every hardware address length worth a thought:
+	// the header is read the same way whatever the link is (chaddr = the first min(hlen,16) bytes)
+	{
+		htypes := []int{0, 1, 2, 6, 7, 15, 16, 18, 20, 23, 24, 27, 31, 32, 33, 37, 38, 100, 254, 255}
+		hlens := []int{0, 1, 2, 4, 5, 6, 7, 8, 12, 15, 16, 17, 20, 21, 32, 64, 128, 255}
+		for _, ht := range htypes {
+			for _, hl := range hlens {
+				w := append([]byte(nil), hdr...)
+				w[1], w[2] = byte(ht), byte(hl)
+				for i := 28; i < 44; i++ {
+					w[i] = byte(0xa0 + i)
+				}
+				w = append(w, 53, 1, byte(1+(ht+hl)%8), 61, 3, 1, byte(ht), byte(hl), 255)
+				fix4(o, w, "hardware-type-by-address-length")
+			}
+		}
+	}
 	for i := 0; i < n; i++ {
 		switch i % 4 {
 		case 0: // unsorted / split / padded areas, garbage after End, odd hlen, names without NUL
